@@ -356,7 +356,15 @@ def execute(plan):
     except Exception as err:  # noqa: BLE001
         fail("C03/route-raised", f"{name}{kw} bc={bc} on {gspec}: a route raised {type(err).__name__}: {err} although make_operator_no_bc worked")
     # scipy backend (only for default options; documented limitation: uniform discretisation)
-    if not kw:
+    # The scipy operators treat a grid as uniform when its cell sizes agree to np.allclose's default rtol=1e-5 and then
+    # use their mean: for nearly (but not exactly) uniform grids they are deliberately approximate, which is their
+    # documented limitation ("only supports uniform discretizations"), not a disagreement in the sense of C03.
+    disc = np.asarray(grid.discretization, dtype=float)
+    spread = float(np.max(np.abs(disc - disc.mean())) / disc.mean()) if disc.size else 0.0
+    nearly_uniform = 1e-13 < spread < 1e-3
+    if nearly_uniform:
+        stats["routes"]["scipy_skipped_nearly_uniform_grid"] = 1
+    if not kw and not nearly_uniform:
         sb = get_backend("scipy")
         if name in sb.get_registered_operators(grid):
             try:
